@@ -49,10 +49,19 @@ def main():
         for f in files:
             lines = open(f'{S}/repo/{f}').read().split('\n')
             in_tests = False
+            in_log = False
             for i, l in enumerate(lines):
                 st = l.strip()
                 if st.startswith('#[cfg(test)]') or st.startswith('mod tests') or st.startswith('mod test'):
                     in_tests = True
+                # arguments of a (multi-line) log macro only change a message
+                if st.startswith('log::') and not st.endswith(');'):
+                    in_log = True
+                    continue
+                if in_log:
+                    if st.endswith(');'):
+                        in_log = False
+                    continue
                 if in_tests or st.startswith('//') or st.startswith('log::') or 'assert' in st or st.startswith('"') or 'verif' in st or st.startswith('#['):
                     continue
                 for a, b in OPS:
